@@ -3,7 +3,7 @@ use crate::{
     error::CompilerError,
 };
 
-use crate::parser::expression::{parse_call_like, parse_expression};
+use crate::parser::expression::{parse_call_like, parse_expression, parse_path_identifier};
 
 pub fn tokenize_inline_content(content: &str) -> Result<Vec<Node>, CompilerError> {
     let mut nodes = Vec::new();
@@ -533,7 +533,10 @@ pub fn parse_condition(condition: &str) -> Result<crate::ast::Condition, Compile
         "true" => Ok(Condition::Bool(true)),
         "false" => Ok(Condition::Bool(false)),
         _ => {
-            if let Some(name) = condition.strip_suffix("()") {
+            // Only a lone `name()` is a bare call; `a != f()` is an expression like any other.
+            if let Some(name) = condition.strip_suffix("()")
+                && parse_path_identifier(name.trim()) == Some(name.trim())
+            {
                 return Ok(Condition::FunctionCall(name.trim().to_owned()));
             }
 
